@@ -30,6 +30,11 @@ package scorch
 //@ ghostfield segment.PostingsIterator.plast uint64
 //@ ghostfield segment.PostingsIterator.pdone bool
 //@ uf segCount(it segment.PostingsIterator) uint64
+// zapx hands out one shared, permanently empty iterator (emptyPostingsIterator) for every segment in
+// which the term does not occur: emptyIt marks it. It never returns a posting (so it is never
+// "started"), and it may sit at several positions of one reader.
+//@ uf emptyIt(it segment.PostingsIterator) bool
+//@ axiom emptyItCount: all(it, segment.PostingsIterator, implies(emptyIt(it), segCount(it) == 0))
 // (postings are mutable and reused by their iterator: the doc number of a posting is ghost state
 // of the posting, read by Number(); it is not a function of the pointer)
 //@ ghostfield segment.Posting.pnum uint64
@@ -40,14 +45,14 @@ package scorch
 //@ assume func segment.PostingsIterator.Next(it)
 //@   requires it != nil
 //@   modifies it.pstarted, it.plast, it.pdone, segment.Posting.pnum
-//@   ensures implies(result1 != nil, result0 == nil)
+//@   ensures implies(result1 != nil, result0 == nil) && implies(emptyIt(it), result0 == nil)
 //@   ensures implies(old(it.pdone) && result1 == nil, result0 == nil)
 //@   ensures implies(result1 == nil && result0 != nil, result0.pnum < segCount(it) && implies(old(it.pstarted), result0.pnum > old(it.plast)) && it.pstarted && it.plast == result0.pnum && !it.pdone)
 //@   ensures implies(result1 == nil && result0 == nil, it.pdone && it.pstarted == old(it.pstarted) && it.plast == old(it.plast))
 //@ assume func segment.PostingsIterator.Advance(it, docNum)
 //@   requires it != nil && (it.pdone || !it.pstarted || docNum > it.plast)
 //@   modifies it.pstarted, it.plast, it.pdone, segment.Posting.pnum
-//@   ensures implies(result1 != nil, result0 == nil)
+//@   ensures implies(result1 != nil, result0 == nil) && implies(emptyIt(it), result0 == nil)
 //@   ensures implies(old(it.pdone) && result1 == nil, result0 == nil)
 //@   ensures implies(result1 == nil && result0 != nil, result0.pnum < segCount(it) && result0.pnum >= docNum && it.pstarted && it.plast == result0.pnum && !it.pdone)
 //@   ensures implies(result1 == nil && result0 == nil, it.pdone && it.pstarted == old(it.pstarted) && it.plast == old(it.plast))
@@ -69,20 +74,21 @@ package scorch
 //@ ghostfield IndexSnapshotTermFieldReader.gstarted bool
 //@ ghostfield IndexSnapshotTermFieldReader.glast uint64
 //@ ghostfield IndexSnapshotTermFieldReader.gseg int
-// position of an iterator in its reader (makes the iterators of one reader pairwise distinct)
-//@ uf itPos(it segment.PostingsIterator) int
+// position of an iterator in its reader (makes the iterators of one reader pairwise distinct);
+// ghost state set when the reader is built (IndexSnapshot.TermFieldReader)
+//@ ghostfield segment.PostingsIterator.ppos int
 
 // segments do not overlap: a segment's doc numbers end before any later segment starts (opaque:
 // only Advance, which may move the cursor over several segments at once, needs the pairwise form)
 //@ spec opaque segsOK(i *IndexSnapshotTermFieldReader) bool = forall(p, 0, len(i.iterators), forall(q, p+1, len(i.iterators), i.snapshot.offsets[p] + segCount(i.iterators[p]) <= i.snapshot.offsets[q]))
 //@ spec tfrShape(i *IndexSnapshotTermFieldReader) bool = i.snapshot != nil && offsetsOK(i.snapshot) && segsOK(i) &&len(i.iterators) == len(i.snapshot.offsets) && len(i.iterators) == len(i.snapshot.segment) && \
-//@     0 <= i.segmentOffset && i.segmentOffset <= len(i.iterators) && forall(k, 0, len(i.iterators), i.iterators[k] != nil && itPos(i.iterators[k]) == k) && \
+//@     0 <= i.segmentOffset && i.segmentOffset <= len(i.iterators) && forall(k, 0, len(i.iterators), i.iterators[k] != nil && (emptyIt(i.iterators[k]) || i.iterators[k].ppos == k)) && \
 //@     forall(k, 0, len(i.iterators), i.snapshot.offsets[k] < 4611686018427387904 && segCount(i.iterators[k]) < 4611686018427387904) && \
 //@     forall(k, 0, len(i.iterators)-1, i.snapshot.offsets[k] + segCount(i.iterators[k]) <= i.snapshot.offsets[k+1])
 // iterators of later segments have delivered nothing; a started iterator never ran ahead of the
 // reader; what the current segment can still deliver lies beyond the last returned id, and that id
 // lies before the next segment
-//@ spec tfrCursor(i *IndexSnapshotTermFieldReader) bool = forall(k, i.segmentOffset+1, len(i.iterators), !i.iterators[k].pstarted) && \
+//@ spec tfrCursor(i *IndexSnapshotTermFieldReader) bool = forall(k, i.segmentOffset+1, len(i.iterators), !i.iterators[k].pstarted) && forall(k, 0, len(i.iterators), implies(emptyIt(i.iterators[k]), !i.iterators[k].pstarted)) && \
 //@     forall(k, 0, len(i.iterators), implies(i.iterators[k].pstarted, i.gstarted && i.iterators[k].plast < segCount(i.iterators[k]) && i.snapshot.offsets[k] + i.iterators[k].plast <= i.glast)) && \
 //@     implies(i.segmentOffset < len(i.iterators) && i.iterators[i.segmentOffset].pstarted && !i.iterators[i.segmentOffset].pdone, i.glast == i.snapshot.offsets[i.segmentOffset] + i.iterators[i.segmentOffset].plast) && \
 //@     implies(i.gstarted && i.segmentOffset < len(i.iterators) && !i.iterators[i.segmentOffset].pstarted, i.glast < i.snapshot.offsets[i.segmentOffset]) && \
